@@ -1,6 +1,7 @@
 """C18 — queries are pure: independent of call history, aliasing and concurrent use."""
 import datetime as dt
 import hashlib
+import json
 import signal
 import struct
 import sys
@@ -181,7 +182,7 @@ def call(orb, q, args):
 
 
 def qkey(q):
-    return lib.json.dumps(q, sort_keys=True)
+    return json.dumps(q, sort_keys=True)
 
 
 def gen_pool(rng):
@@ -455,7 +456,6 @@ class Sched:
         self.results[i] = r
         self.done[i] = True
         if self.abort is None:
-            seg = self._active()
             self._handover(i, True)
 
     def tid(self):
@@ -753,7 +753,7 @@ def correspond(ctx):
         if bad:
             ctx.disagree("c18values", case, "; ".join(sorted(set(bad))[:4]), "every stored/loaded slot value is canonical")
         ctx.distinct((sat.tle[0][2:7], fmt_events(r["log"])))
-        ctx.bump("trace_shapes", fmt_events([(0, k, h, None) for (_, k, h, _) in r["log"]])[:0] or len(r["log"]))
+        ctx.bump("events_per_run", len(r["log"]))
         if len(cases) <= 3 and r["log"]:
             ctx.sample({"queries": [q["m"] for q in queries], "plan": plan, "events": fmt_events(r["log"])})
 
@@ -804,7 +804,7 @@ def oracle(ctx):
     def judge(sat, queries, plan, r, warm):
         ctx.count("eval_schedule")
         judge_results(sat, queries, plan, r, viol, warm)
-        ctx.distinct((sat.tle[0][2:7], "s", tuple(qkey(q) for q in queries), lib.json.dumps(plan)))
+        ctx.distinct((sat.tle[0][2:7], "s", tuple(qkey(q) for q in queries), json.dumps(plan)))
     concurrency(ctx, sats[:ctx.size(2, 6)], judge, spy=False, scale=scale)
     for sat in sats[:2]:
         free_running(ctx, sat, viol, rounds=ctx.size(10, 200))
